@@ -77,6 +77,11 @@ bool compare(vf::Ctx& c, G<DIM>& g, const Model<DIM>& m, const std::vector<Op>& 
   }
   std::vector<int> got(m.cell.size());
   for (size_t l = 0; l < m.cell.size(); ++l) { got[l] = g(ci<DIM>(unlin<DIM>(l, m.n))); c.obs((uint64_t)got[l]); }
+  {   // the same cells through the const accessor
+    const G<DIM>& cg = g; std::vector<int> gotc(m.cell.size());
+    for (size_t l = 0; l < m.cell.size(); ++l) gotc[l] = cg(ci<DIM>(unlin<DIM>(l, m.n)));
+    if (gotc != got) { c.violation(std::string("WrappableGrid.constAccessor.") + phase, vf::JO().i("dim", DIM).raw("size", arr<DIM>(m.n)).raw("ops", ops_json(ops)).i("nops", ops.size()).done(), vf::JO().vec("const_read", gotc).vec("non_const_read", got).done()); ok = false; }
+  }
   auto params = [&]() { return vf::JO().i("dim", DIM).raw("size", arr<DIM>(m.n)).raw("ops", ops_json(ops)).i("nops", ops.size()).done(); };
   if (got != m.cell) {
     c.violation(std::string("WrappableGrid.translate.cells.") + phase, params(), vf::JO().vec("got", got).vec("want", m.cell).done());
@@ -258,6 +263,7 @@ std::string vf_describe(const std::string& tier) {
   o.str("S2", th ? "2D sizes 1..4, 3D 1..3, all sequences of 3 translations, offsets [-(n+1),n+1], writes {none,single,full} before each translation (3D: writes only for <=8 cells), empty value fresh or default"
                  : "2D sizes 1..4 (depth 3 up to 6 cells, else 2), 3D 1..3 depth 2, offsets [-(n+1),n+1], writes {none,single,full} (3D up to 12 cells), empty value fresh or default");
   o.str("S1_larger_grids", "also 2D 8x1, 8x2, 8x3, 1x8, 3x8, 7x5, 5x8 (quick; the thorough tier covers all sizes to 8x8) and 3D 6x6x2, 8x4x2, 2x2x8, 8x1x2 (both tiers), offsets [-(n+1),n+1]; above 32 cells the first-access check visits every 7th cell");
+  o.str("accessors", "every comparison reads all cells through the non-const and through the const accessor");
   o.str("object_forms", "every explored grid is a copy of its predecessor: alternately copy-constructed, and copy-assigned over a grid that holds other data at another offset");
   o.str("first_access", "S1 and the first translation of S2: every cell read (and written) as the first access after the translation, each on its own copy of the grid");
   o.str("model", "window array: new[i] = old[i+k] if inside else the translation's empty value; accumulated offset mod size");
